@@ -68,7 +68,8 @@ def from_hex(cx, n):
     _judge(cx, bs, lambda: mido.Message.from_hex(text), (ValueError,))
 
 
-ILL = [1.0, '1', None, b'\x01', (1,), 1j, 128.5, 144.0, 241.0, 0.5, [], float('nan')]
+ILL = [1.0, '1', None, b'\x01', (1,), 1j, 128.5, 144.0, 241.0, 0.5, [], float('nan'),
+       'clock', 'note_on', 'sysex', 'tune_request', b'\xf8', '\x90']
 
 
 @harness(labels=['only-TypeError-or-ValueError'])
@@ -89,11 +90,32 @@ def from_bytes_illtyped(cx, n):
                  'only-TypeError-or-ValueError')
 
 
+# one representative per byte class (data low/mid/high, each status family, every system status)
+CLASS_BYTES = [0x00, 0x3C, 0x7F, 0x80, 0x9A, 0xAF, 0xB0, 0xC5, 0xD0, 0xEF, 0xF0, 0xF1, 0xF2, 0xF3, 0xF4, 0xF5, 0xF6,
+               0xF7, 0xF8, 0xF9, 0xFA, 0xFC, 0xFE, 0xFF]
+
+
+@harness(labels=['only-ValueError', 'well-formed=>accepted', 'accepted=>well-formed', 'bytes-reproduce-input',
+                 'returns-message', 'len'])
+def from_bytes_container(cx, n, container):
+    """Real bytes / bytearray / memoryview-free containers need concrete items: each item is chosen by a
+    certified fork from one representative per byte class."""
+    import mido
+    items = [CLASS_BYTES[cx.choice('c%d' % i, len(CLASS_BYTES))] for i in range(n)]
+    src = {'bytes': bytes, 'bytearray': bytearray, 'list': list, 'deque': __import__('collections').deque}[container](items)
+    if container == 'deque':
+        # (a deque cannot be sliced: TypeError is the documented kind of answer for an unsuitable container)
+        _, exc = cx.raises(lambda: mido.Message.from_bytes(src), ValueError, TypeError, label='only-ValueError')
+        return
+    _judge(cx, items, lambda: mido.Message.from_bytes(src), (ValueError,))
+
+
 BOUNDS = {
     'quick': 'every integer sequence of length 0..4 with each item symbolic in [-2^33, 2^33] (superset of all byte '
              'strings of length 0..3, 16.8M, plus out-of-byte-range items); lengths 5..10 likewise (covers over-long '
              'fixed-length messages and sysex); list and tuple containers; from_hex over all byte values for n<=4; '
-             'ill-typed items: 12-value menu at every position, n<=4',
+             'ill-typed items: 18-value menu (incl. message type names) at every position, n<=4; real bytes and bytearray '
+             'inputs of length <=3 over one representative per byte class (24 classes)',
     'thorough': 'lengths 0..64 fully symbolic; from_hex n<=8; ill-typed n<=6',
 }
 OUTSIDE = 'sequences longer than the stated length; non-integer items beyond the menu; bytes objects are covered ' \
@@ -116,4 +138,7 @@ def JOBS(tier):
         jobs.append((from_hex, {'n': n}, {'cost': 3 ** n}))
     for n in range(1, (4 if tier == 'quick' else 6) + 1):
         jobs.append((from_bytes_illtyped, {'n': n}, {'cost': 4 ** n}))
+    for c in ('bytes', 'bytearray', 'deque'):
+        for n in range(0, (3 if tier == 'quick' else 4) + 1):
+            jobs.append((from_bytes_container, {'n': n, 'container': c}, {'cost': 24 ** n // 10}))
     return jobs
